@@ -17,7 +17,7 @@ META = dict(
         quick="all pairs of graphs (connected or not) on <=3 nodes, plus equal-size 4-node pairs with <=3 bonds; element "
               "in {C,N}, charge in {0,1}, hcount in {0,1}, order in {1,2}; second graph under the same ids and under "
               "shifted ids with reversed insertion order; WL filter on/off; engines with node_attrs [element,charge] and "
-              "[element] querying the same objects in both orders; induced and monomorphism mode, use_filter on/off; streams of short-lived graph pairs under eager address recycling; WL filter on/off and engine histories also for five-atom hosts (5-ring, branched tree [thorough: 5-chain]) against 3- and 4-atom chain [thorough: star] patterns, elements only",
+              "[element] querying the same objects in both orders; induced and monomorphism mode, use_filter on/off; streams of short-lived graph pairs under eager address recycling; WL filter on/off and engine histories also for five-atom hosts (5-ring, branched tree [thorough: 5-chain]) against 3- and 4-atom chain [thorough: star] patterns, and for the two pairs of connected five-atom graphs with equal degree sequences, elements only; graph_morphism.find_graph_isomorphism on all 3-atom pairs and on 4/5-atom graphs against themselves plus one bond under the same numbering, invariant pre-check on/off, both argument orders",
         thorough="all pairs on <=4 nodes (<=4 bonds)",
     ),
     outside=["graphs > 4 nodes apart from the listed five-atom hosts", "the optional 'mod' rule backend (not installed)", "MultiGraph/DiGraph inputs"],
@@ -242,7 +242,40 @@ def h_stream(E, n, edges):
     E.observe(len(m))
 
 
-HARNESSES = {"iso": h_iso, "filters": h_filters, "mappings": h_mappings, "submatch": h_submatch, "stream": h_stream}
+def h_morphism(E, an, aedges, bn, bedges, shift):
+    """graph_morphism.find_graph_isomorphism / graph_isomorphism: a mapping is returned iff a label- and adjacency-preserving
+    bijection exists, the mapping is one, and the cheap invariant pre-check never changes the answer.  Same node ids in
+    both graphs (shift=False) or disjoint ids."""
+    from synkit.Graph.Matcher import graph_morphism as gmm
+
+    A, B = build_pair(E, an, aedges, bn, bedges, shift, "nocharge")
+    nm = lambda a, b: a["element"] == b["element"] and a["hcount"] == b["hcount"]
+    em = lambda a, b: a["order"] == b["order"]
+    want = iso_formula(A, B, lambda u, v: AND(EQ(A.nodes[u]["element"], B.nodes[v]["element"]), EQ(A.nodes[u]["hcount"], B.nodes[v]["hcount"])),
+                       lambda e, f: EQ(A[e[0]][e[1]]["order"], B[f[0]][f[1]]["order"]))
+    info = dict(a=aedges, b=bedges, shift=shift)
+    got = {}
+    for fast in (True, False):
+        for X, Y, tag in ((A, B, "ab"), (B, A, "ba")):
+            m = gmm.find_graph_isomorphism(X, Y, node_match=nm, edge_match=em, use_defaults=False, fast_invariant_check=fast)
+            got[fast, tag] = m is not None
+            E.check(NOT(IFF(m is not None, want)), "mapping-returned-iff-isomorphic", dict(info, fast_invariant_check=fast, order=tag, mapping=m))
+            if m is not None:
+                ok = isinstance(m, dict) and set(m) == set(X.nodes) and set(m.values()) == set(Y.nodes)
+                bad = True
+                if ok:
+                    conj = [AND(EQ(X.nodes[u]["element"], Y.nodes[m[u]]["element"]), EQ(X.nodes[u]["hcount"], Y.nodes[m[u]]["hcount"])) for u in X.nodes]
+                    struct = X.number_of_edges() == Y.number_of_edges() and all(Y.has_edge(m[u], m[v]) for u, v in X.edges)
+                    if struct:
+                        conj += [EQ(X[u][v]["order"], Y[m[u]][m[v]]["order"]) for u, v in X.edges]
+                        bad = NOT(AND(conj))
+                E.check(bad, "returned-mapping-is-an-isomorphism", dict(info, fast_invariant_check=fast, order=tag, mapping=m))
+    E.check(got[True, "ab"] != got[False, "ab"] or got[True, "ba"] != got[False, "ba"], "invariant-pre-check-changes-the-answer", info)
+    E.note(nontrivial=any(got.values()))
+    E.observe(sorted(got.items()))
+
+
+HARNESSES = {"morphism": h_morphism, "iso": h_iso, "filters": h_filters, "mappings": h_mappings, "submatch": h_submatch, "stream": h_stream}
 
 
 def shards(tier, seed):
@@ -271,6 +304,27 @@ def shards(tier, seed):
     for he in (ring5, tee5) + (() if q else (chain5,)):
         for pn, pe in ((4, [[1, 2], [2, 3], [3, 4]]), (3, [[1, 2], [2, 3]])) + (() if q else ((4, [[1, 2], [1, 3], [1, 4]]),)):
             sh.append(dict(h="filters", params=dict(an=5, aedges=he, bn=pn, bedges=pe, shift=True, dom="bare")))
+    # the connected five-atom graphs that share their degree sequence with a non-isomorphic one (two classes of two):
+    # the smallest non-isomorphic pairs that a label- and degree-based shortcut cannot tell apart
+    import networkx as nx
+    by_deg = {}
+    for es in all_shapes(5, connected=True):
+        g5 = nx.Graph([tuple(e) for e in es])
+        by_deg.setdefault(tuple(sorted(d for _, d in g5.degree())), []).append([list(e) for e in es])
+    for cls in by_deg.values():
+        if len(cls) == 2:
+            sh.append(dict(h="filters", params=dict(an=5, aedges=cls[0], bn=5, bedges=cls[1], shift=True, dom="bare")))
+            if not q:
+                sh.append(dict(h="filters", params=dict(an=5, aedges=cls[1], bn=5, bedges=cls[0], shift=False, dom="bare")))
+    # graph_morphism: equal-size pairs; the second graph = the first plus one more bond under the same numbering
+    three = [(3, es) for es in all_shapes(3)]
+    for (an, ae), (bn, be) in itertools.product(three, three):
+        sh.append(dict(h="morphism", params=dict(an=an, aedges=ae, bn=bn, bedges=be, shift=len(ae) % 2 == 0)))
+    for n5, base in ((4, [[1, 2], [2, 3], [3, 4]]), (4, [[1, 2], [1, 3], [1, 4]]), (5, chain5)) + (() if q else ((4, [[1, 2], [3, 4]]), (5, tee5))):
+        nodes5 = list(range(1, n5 + 1))
+        for u, v in itertools.combinations(nodes5, 2):
+            if [u, v] not in base and (not q or (u, v) in ((1, n5), (1, 3), (2, 4))):
+                sh.append(dict(h="morphism", params=dict(an=n5, aedges=base, bn=n5, bedges=sorted(base + [[u, v]]), shift=False)))
     for (hn, he), (pn, pe) in itertools.product(small + four, small):
         if pn <= hn and len(pe) <= len(he) and hn >= 2:
             if q and hn == 4 and pn == 3 and len(pe) >= 2:
